@@ -130,6 +130,14 @@ func (g *Group[K, V]) Do(key K, fn func() (V, error)) (v V, err error, shared bo
 	return c.val, c.err, true
 }
 
+// Forget tells the group to forget about a key. Future calls to Do for this key
+// start a new call instead of sharing the result of the current one.
+func (g *Group[K, V]) Forget(key K) {
+	g.mu.Lock()
+	delete(g.m, key)
+	g.mu.Unlock()
+}
+
 // doCall handles the single call for a key.
 func (g *Group[K, V]) doCall(c *call[V], key K, fn func() (V, error)) {
 	normalReturn := false
